@@ -6,12 +6,10 @@ toolchain go1.23.5
 
 require (
 	github.com/sahandsafizadeh/qeep v0.0.0
+	golang.org/x/exp v0.0.0-20231110203233-9a3e6036ecaa
 	pgregory.net/rapid v1.3.0
 )
 
-require (
-	golang.org/x/exp v0.0.0-20231110203233-9a3e6036ecaa // indirect
-	gonum.org/v1/gonum v0.15.1 // indirect
-)
+require gonum.org/v1/gonum v0.15.1 // indirect
 
 replace github.com/sahandsafizadeh/qeep => /repo
